@@ -58,6 +58,8 @@ fn base(channels: usize, bits: usize, block: usize, nfull: usize, residue: usize
         synthetic_silence: false,
         pre: None,
         via_mem: false,
+        emit_sink: 0,
+        observers: false,
     }
 }
 
